@@ -4,7 +4,7 @@ CONSTANTS
   MaxLen = 3
   KeyWithoutType = FALSE
   FirstIndexOnly = FALSE
-  NameSet = {"X", "Y", "W", "Name", "nosuch", "x", "name"}
+  NameSet = {"X", "W", "Name", "AName", "nosuch", "x"}
 INVARIANTS
   CacheUnobservable
   Bounded
